@@ -16,6 +16,9 @@ import (
 
 func (t *Task) rnd64(x string, st *State) string {
 	t.assumed["float64 arithmetic by the standard rounding model over reals (|rnd x - x| <= 2^-53 |x|, exact on integers up to 2^53, monotone); subnormals/overflow not modelled"] = true
+	if t.realInt == nil {
+		t.realInt = map[string]bool{}
+	}
 	f := t.declareFun("$rnd64", []string{"Real"}, "Real")
 	r := t.fresh("r64", "Real")
 	t.assume(st.pc, sEq(r, sApp(f, x)))
@@ -24,19 +27,54 @@ func (t *Task) rnd64(x string, st *State) string {
 	t.assume(st.pc, sAnd(
 		"(<= (- "+r+" "+x+") (* "+absx+" "+eps+"))",
 		"(<= (- "+x+" "+r+") (* "+absx+" "+eps+"))",
-		sImp(sAnd("(is_int "+x+")", "(<= "+absx+" 9007199254740992.0)"), sEq(r, x)),
-		// sign and zero preservation (consequences of monotonicity with rnd(0)=0)
 		sImp("(>= "+x+" 0.0)", "(>= "+r+" 0.0)"),
 		sImp("(<= "+x+" 0.0)", "(<= "+r+" 0.0)"),
 	))
-	// monotonicity against earlier applications in this task
+	if len(t.rndApps) == 0 {
+		for _, a := range []string{"1.0", "2.0"} {
+			t.rndApps = append(t.rndApps, [2]string{a, a}, [2]string{"(- " + a + ")", "(- " + a + ")"})
+		}
+	}
+	// monotonicity against exactly representable anchors and earlier roundings (rounding is monotone and odd)
 	for _, p := range t.rndApps {
 		t.assume(st.pc, sAnd(sImp("(<= "+p[0]+" "+x+")", "(<= "+p[1]+" "+r+")"), sImp("(<= "+x+" "+p[0]+")", "(<= "+r+" "+p[1]+")")))
 	}
-	if len(t.rndApps) < 12 {
-		t.rndApps = append(t.rndApps, [2]string{x, r})
+	if len(t.rndApps) < 20 {
+		t.rndApps = append(t.rndApps, [2]string{x, r}, [2]string{"(- " + x + ")", "(- " + r + ")"})
 	}
 	return r
+}
+
+// exactInt: an integer-valued real of magnitude <= 2^53 is exactly representable: no rounding happens.
+func (a *Activation) exactInt(term string, st *State, pos token.Pos) string {
+	t := a.t
+	if t.realInt == nil {
+		t.realInt = map[string]bool{}
+	}
+	absx := "(ite (>= " + term + " 0.0) " + term + " (- " + term + "))"
+	a.obligeSafety(st, "f64exact", "integer value is exactly representable in float64", "(<= "+absx+" 9007199254740992.0)", pos)
+	t.realInt[term] = true
+	if len(t.rndApps) == 0 {
+		for _, c := range []string{"1.0", "2.0"} {
+			t.rndApps = append(t.rndApps, [2]string{c, c}, [2]string{"(- " + c + ")", "(- " + c + ")"})
+		}
+	}
+	if len(t.rndApps) < 20 {
+		t.rndApps = append(t.rndApps, [2]string{term, term}, [2]string{"(- " + term + ")", "(- " + term + ")"})
+	}
+	return term
+}
+
+func (t *Task) isIntReal(x string) bool {
+	if t.realInt != nil && t.realInt[x] {
+		return true
+	}
+	if isRealLit(x) && !strings.Contains(x, "/") {
+		// literal like 2.0 or (- 3.0)
+		y := strings.TrimSuffix(strings.TrimPrefix(strings.TrimSpace(x), "(- "), ")")
+		return strings.HasSuffix(y, ".0")
+	}
+	return false
 }
 
 // truncReal: Go float->int conversion truncates toward zero.
@@ -109,3 +147,62 @@ func (a *Activation) binopBV(in *ssa.BinOp, x, y Val, st *State) Val {
 }
 
 var _ = strings.TrimSpace
+
+func isRealLit(x string) bool {
+	x = strings.TrimSpace(x)
+	if strings.HasPrefix(x, "(- ") && strings.HasSuffix(x, ")") {
+		return isRealLit(x[3 : len(x)-1])
+	}
+	if strings.HasPrefix(x, "(/ ") && strings.HasSuffix(x, ")") {
+		f := strings.Fields(x[3 : len(x)-1])
+		return len(f) == 2 && isRealLit(f[0]) && isRealLit(f[1])
+	}
+	if x == "" {
+		return false
+	}
+	for _, c := range x {
+		if !(c >= '0' && c <= '9' || c == '.') {
+			return false
+		}
+	}
+	return true
+}
+
+// realMul: product of two reals. With a literal factor it is exact (linear); the product of two symbolic values
+// is abstracted by a fresh real constrained by sign, zero, unit and contraction facts (a sound over-approximation
+// that keeps the queries linear; the solvers do not cope with the nonlinear terms next to to_int/is_int).
+func (t *Task) realMul(a, b string, st *State) string {
+	if isRealLit(a) || isRealLit(b) || !t.absMul {
+		return "(* " + a + " " + b + ")"
+	}
+	t.assumed["products of two symbolic float64 values are over-approximated (sign, zero, unit, |a|<=1 => |ab|<=|b|)"] = true
+	p := t.fresh("prod", "Real")
+	abs := func(x string) string { return "(ite (>= " + x + " 0.0) " + x + " (- " + x + "))" }
+	t.assume(st.pc, sAnd(
+		sImp(sOr(sEq(a, "0.0"), sEq(b, "0.0")), sEq(p, "0.0")),
+		sImp(sOr(sAnd("(>= "+a+" 0.0)", "(>= "+b+" 0.0)"), sAnd("(<= "+a+" 0.0)", "(<= "+b+" 0.0)")), "(>= "+p+" 0.0)"),
+		sImp(sOr(sAnd("(>= "+a+" 0.0)", "(<= "+b+" 0.0)"), sAnd("(<= "+a+" 0.0)", "(>= "+b+" 0.0)")), "(<= "+p+" 0.0)"),
+		sImp("(<= "+abs(a)+" 1.0)", "(<= "+abs(p)+" "+abs(b)+")"),
+		sImp("(<= "+abs(b)+" 1.0)", "(<= "+abs(p)+" "+abs(a)+")"),
+		sImp("(>= "+abs(a)+" 1.0)", "(>= "+abs(p)+" "+abs(b)+")"),
+		sImp("(>= "+abs(b)+" 1.0)", "(>= "+abs(p)+" "+abs(a)+")"),
+		sImp(sEq(a, "1.0"), sEq(p, b)),
+		sImp(sEq(b, "1.0"), sEq(p, a)),
+	))
+	return p
+}
+
+func (t *Task) realDiv(a, b string, st *State) string {
+	if isRealLit(b) || !t.absMul {
+		return "(/ " + a + " " + b + ")"
+	}
+	t.assumed["quotients by a symbolic float64 value are over-approximated (sign, zero, 0<=a<=b => 0<=a/b<=1)"] = true
+	q := t.fresh("quot", "Real")
+	t.assume(st.pc, sAnd(
+		sImp(sEq(a, "0.0"), sEq(q, "0.0")),
+		sImp(sAnd("(>= "+a+" 0.0)", "(> "+b+" 0.0)"), "(>= "+q+" 0.0)"),
+		sImp(sAnd("(>= "+a+" 0.0)", "(<= "+a+" "+b+")", "(> "+b+" 0.0)"), "(<= "+q+" 1.0)"),
+		sImp(sAnd(sEq(a, b), sNot(sEq(b, "0.0"))), sEq(q, "1.0")),
+	))
+	return q
+}
